@@ -1297,7 +1297,8 @@ def sub_main(opts):
     sweep0 = {"violations": []}
     n_unknown = report_violations(master, collect_violations(tot, sweep0), findings, lines, ev_v)
     witnessed = wr.wait()
-    out = {"host": "%d.%d.%d" % sys.version_info[:3], "summary": host_summary(tot, t_runs), "lines": lines,
+    out = {"host": "%d.%d.%d%s" % (sys.version_info[:3] + ("-O" if sys.flags.optimize else "",)),
+           "summary": host_summary(tot, t_runs), "lines": lines,
            "n_unknown": n_unknown, "known": ev_v["known"], "replays": ev_v["replays"], "witnessed": witnessed,
            "triples": sorted(tot["triples"]), "digest_verdict": "%016x" % tot["digest_verdict"]}
     with open(opts["sub"], "w") as f:
@@ -1311,11 +1312,13 @@ def run_other_hosts(master, tier, nruns, workers):
 
     me = "%d.%d.%d" % sys.version_info[:3]
     outs = []
-    for tag, exe in core.host_pythons():
-        if tag == me:
-            continue
+    # every other interpreter, plus this interpreter once more with assertions stripped (python -O): the
+    # field-type validation of the portable code types is written with assert
+    configs = [(tag, exe, []) for tag, exe in core.host_pythons() if tag != me]
+    configs.append((me + "-O", sys.executable, ["-O"]))
+    for tag, exe, flags in configs:
         outp = os.path.join(W["rundir"], "sub-%s.json" % tag)
-        p = subprocess.run([exe, "-B", "-s", os.path.join(core.VERIF_DIR, "sim", "main.py"), "C11", "--tier", tier,
+        p = subprocess.run([exe] + flags + ["-B", "-s", os.path.join(core.VERIF_DIR, "sim", "main.py"), "C11", "--tier", tier,
                             "--seed", str(master), "--runs", str(nruns), "--workers", str(workers), "--sub", outp],
                            env=core.child_env(), stdout=subprocess.PIPE, stderr=subprocess.PIPE, timeout=3600)
         if p.returncode != 0:
